@@ -16,7 +16,6 @@ def FX_fmt(o):
     return _fmt(o, 160)
 
 # thorough tier: release configuration only — the dev-configuration pass (debug assertions on) still reports 16 debug_assert!/index sites that are not triaged; not registered until they are (DESIGN.md 12.1)
-THOROUGH_CFGS = ["release"]
 CRATES = ["sciparse"]
 
 EXPLANATION = (
